@@ -73,16 +73,14 @@ def c10(tier, seed):
 # ------------------------------------------------------------------ C11: command substitution
 def c11(tier, seed):
     out = []
-    texts = ['a', 'a b', '$1', '${x}', '$HOME', 'a\\b', '*', '{a,b}', 'x.y', 'a|b', '(', '[a]', '^$', 'a  b', 'é', '$(echo no)', '~']
+    texts = ['a', 'a b', '$1', '${x}', '$HOME', 'a\\b', '*', '{a,b}', 'x.y', 'a|b', '(', '[a]', '^$', 'a  b', 'é', '$(echo no)', '~', 'a`echo no`b']
     files = {'pargs': PARGS}
     for i, t in enumerate(texts):
         files['t%d' % i] = "#!/bin/sh\nprintf '%s\\n' '" + t + "'\n"
     for i, t in enumerate(texts):
         for form in ('$(%s)', '`%s`'):
             sub = form % ('./t%d' % i)
-            rescan = None
-            if '$(' in t:   # the `$(..)` pass runs after the backquote pass and scans what that one inserted (known finding)
-                rescan = 'substitution:backquote-output-scanned-by-the-dollar-pass' if form.startswith('`') else 'substitution:output-contains-substitution-syntax'
+            rescan = 'substitution:output-contains-substitution-syntax' if ('$(' in t or '`' in t) else None
             out.append({'line': './pargs "%s"' % sub, 'files': files, 'expect_stdout': _argv([t]), 'area': rescan or 'substitution:double-quoted'})
             out.append({'line': './pargs "p%sq"' % sub, 'files': files, 'expect_stdout': _argv(['p' + t + 'q']), 'area': rescan or 'substitution:double-quoted'})
             if t not in ('*', '~') and '|' not in t:
